@@ -282,6 +282,6 @@ def threaded_strategy(tier="quick"):
 
 PARTS = [Part("faults", case_strategy, execute, quick=2000, thorough=10000),
          Part("threaded", threaded_strategy, execute, quick=40, thorough=150, shards=4,
-              quick_shards=1),
+              quick_shards=1, quick_factor=1),
          Part("coverage-guided:faults", None, execute, quick=0, thorough=0, shards=1,
               exhaustive=runner_fuzz_part(ID, "faults"))]
